@@ -151,7 +151,9 @@ def run(ctx):
     ws = eff.site_writes(h, 1)
     ctx.instance(len(ws), {"handler": short(h.name), "state writes": len(ws)})
     for b, kind, path, span in ws:
-        ok = h.dominates(on_t, b)
+        # the flag is looked at on every way to the write (the test itself dominates it, not just the block both of its callers share), and
+        # the write lies on its "on" side
+        ok = h.dominates(on_t, b) and h.dominates(fbs[0], b) and b not in h.reachable(0, avoid={fbs[0]})
         ctx.oblig(ok, None)
         if not ok:
             ctx.violation("ungated-write|%s" % ".".join(path), sp_file_line(span), "the 0xD handler writes `%s` without the feature test dominating it" % ".".join(path))
